@@ -64,6 +64,8 @@ pub struct Dec {
 fn dec_strategy() -> BS<Dec> {
     wunion(vec![
         (6, count_human()),
+        // exact multiples of a century (and of 36525 days) +- a few ns, either sign
+        (1, (-100i128..=100, small_delta(2)).prop_map(|(k, d)| k * NPC + d).boxed()),
         // short negative forms whose text has a sign followed by two digits and a unit
         (2, (1i128..1000, 0usize..7, any::<bool>()).prop_map(|(k, u, neg)| { let v = k * [NS_D, NS_H, NS_MIN, NS_S, 1_000_000, 1_000, 1][u]; if neg { -v } else { v } }).boxed()),
         // exactly two fields
